@@ -42,7 +42,7 @@ def tree_case(case, root):
         init = os.path.join(d, '__init__.py')
         if not os.path.exists(init):
             open(init, 'w').close()
-    fname = {'plain': 'modx.py', 'init': '__init__.py', 'main': '__main__.py'}[case['kind']]
+    fname = {'plain': case.get('modfile', 'modx') + '.py', 'init': '__init__.py', 'main': '__main__.py'}[case['kind']]
     path = os.path.join(d, fname)
     # every relative import sits in another kind of statement block (module level, function, class, if / else, try body,
     # except handler, finally, with, loop, loop-else, match case): the rewrite has to reach all of them
